@@ -22,16 +22,18 @@ SPECS["GenC01ChainR"] = {
     "file": "rpylib/distribution/samplingfactory.py", "dom": "R", "ext": "py2coq_loops", "header": _HDR_R,
     "funcs": [
         {"file": "rpylib/grid/spatial.py", "py": "CTMCGrid.left_point", "coq": "left_point", "pyargs": ["coordinate"],
+         "emitter": "py2coq_loops:guarded", "decorators": ["singledispatchmethod"],   # wave 8: source guards (one def per name, declared decorators, free names)
          "dispatch": {"variant": "base", "registered": ["Coordinate1D", "CoordinateND"]},   # wave 8 core guard (c)
          "args": [("axes0", "list R"), ("coordinate", "Z")], "ret": "R",
          "lists": {"self.axes[0]": ("axes0", "R")}, "int_names": ["coordinate"]},
         {"file": "rpylib/grid/spatial.py", "py": "CTMCGrid.right_point", "coq": "right_point", "pyargs": ["coordinate"],
+         "emitter": "py2coq_loops:guarded", "decorators": ["singledispatchmethod"],   # wave 8: source guards (one def per name, declared decorators, free names)
          "dispatch": {"variant": "base", "registered": ["Coordinate1D", "CoordinateND"]},
          "args": [("axes0", "list R"), ("coordinate", "Z")], "ret": "R",
          "lists": {"self.axes[0]": ("axes0", "R")}, "int_names": ["coordinate"]},
         {"file": "rpylib/grid/spatial.py", "py": "CTMCGrid.middle", "coq": "middle", "emitter": "py2coq_loops:registered",
          "variant_of": "float", "ext": "py2coq_loops", "pyargs": ["xi", "xip"], "args": [("xi", "R"), ("xip", "R")], "ret": "R"},
-        {"py": "create_q_vector", "coq": "create_q_vector", "pyargs": ["levy_measure", "grid"],
+        {"py": "create_q_vector", "coq": "create_q_vector", "pyargs": ["levy_measure", "grid"], "emitter": "py2coq_loops:guarded",
          "args": [("int_lm", _RRR), ("grid_middle", _RRR), ("axes0", "list R"), ("origin_coordinate", "Z")], "ret": "list R",
          "attrs": {"levy_measure.integrate": "int_lm"}, "int_attrs": {"grid.origin_coordinate": "origin_coordinate"},
          "calls": {"int_lm": "int_lm", "grid.middle": "grid_middle"},
